@@ -133,7 +133,8 @@ func clip(b []byte, n int) []byte {
 
 func c01Case(t *rapid.T) {
 	f := gen.DrawFile(t, gen.FileOpts{MaxDBs: 4, MaxKeys: 8, MaxElems: 300, ModuleFloat: true})
-	cr := &gen.ChunkReader{Data: f.Bytes, Sizes: gen.ChunkSizes().Draw(t, "chunks")}
+	// the source may hand out its last bytes together with io.EOF (io.Reader allows both ways of ending)
+	cr := &gen.ChunkReader{Data: f.Bytes, Sizes: gen.ChunkSizes().Draw(t, "chunks"), EOFWithData: rapid.Bool().Draw(t, "eofWithData")}
 	var entries []*rdb.BinEntry
 	var err error
 	var res logcap.Result
